@@ -10,6 +10,9 @@ fn text(r: &mut Rng, max: u64, alphabet: &[u8]) -> String { vhc::rand_ascii(r, m
 const UP: &[u8] = b"ABCDEFGHIJKLMNOPQRSTUVWXYZ0123456789 _";
 const ANY: &[u8] = b"abcdefghijklmnopqrstuvwxyzABCDEFGHIJKLMNOPQRSTUVWXYZ0123456789 .,-^=";
 const DIG: &[u8] = b"0123456789";
+/// long free text with line breaks, tabs and form feeds (the dump abbreviates such values and shows control
+/// characters as multi-byte symbols)
+const TXT: &[u8] = b"abcdefghij klmnop ABC 0123\n\r\t\x0c.,-";
 
 pub fn prim_for(r: &mut Rng, vr: VR) -> PrimitiveValue {
     let n = match r.below(6) { 0 => 0, 1 | 2 | 3 => 1, _ => r.range(2, 4) } as usize;
@@ -26,7 +29,8 @@ pub fn prim_for(r: &mut Rng, vr: VR) -> PrimitiveValue {
         VR::DS => strs(r, &|r| format!("{}.{}", r.below(1000), r.below(100))),
         VR::IS => strs(r, &|r| format!("{}", r.below(100000) as i64 - 50000)),
         VR::UI => strs(r, &|r| format!("1.2.{}.{}", r.below(1000), text(r, 6, DIG).len())),
-        VR::LT | VR::ST | VR::UT | VR::UR => { if n == 0 { PrimitiveValue::Empty } else { PrimitiveValue::Str(text(r, 30, ANY)) } }
+        VR::LT | VR::ST | VR::UT => { if n == 0 { PrimitiveValue::Empty } else { PrimitiveValue::Str(text(r, 120, TXT)) } }
+        VR::UR => { if n == 0 { PrimitiveValue::Empty } else { PrimitiveValue::Str(text(r, 30, ANY)) } }
         VR::US => PrimitiveValue::U16((0..n).map(|_| r.next() as u16).collect()),
         VR::SS => PrimitiveValue::I16((0..n).map(|_| r.next() as i16).collect()),
         VR::UL => PrimitiveValue::U32((0..n).map(|_| r.next() as u32).collect()),
